@@ -72,6 +72,18 @@ EDITS = ["none", "permute", "rename-prefix", "duplicate", "rebuild",
          "add-bundle", "remove-bundle", "add-member", "remove-member", "value-kind", "value-kind-both"]
 
 
+def several_entities(d):
+    """a membership record holding several prov:entity values (the PROV-JSON compatibility path of add_attributes)"""
+    for c in [d] + (list(d.bundles) if d.is_document() else []):
+        for r in c.records:
+            if r.get_type().localpart == "Membership" and len(r.get_attribute(PROV["entity"])) > 1:
+                return True
+    return False
+
+
+PRESERVING = {"none", "permute", "rename-prefix", "duplicate", "rebuild", "in-place edit after comparison"}
+
+
 def rebuild(g, w, b, src, edit):
     """d' := copy of document src with one transformation, built through public operations"""
     r = g.rng
@@ -225,6 +237,12 @@ def compare(ctx, w, a, b_, fails, label, g=None):
     case = {"ops": list(w.ops), "expect_eq": exp}
     if e1 != exp or e2 != exp:
         fails.append(Failure("oracle", None, "[%s] d==d' is %s, d'==d is %s, but content equivalence is %s" % (label, e1, e2, exp), case))
+    if label in PRESERVING and not (e1 and e2):
+        # the property's own list of content-preserving transformations: d' must equal d whatever this harness reads as content
+        sig = "C04:membership-several-entities" if (several_entities(oa) or several_entities(ob)) else None
+        fails.append(Failure("oracle", sig, "[%s] a content-preserving transformation gave an unequal document (d==d' %s, d'==d %s; "
+                             "content as read here: %s)" % (label, e1, e2, "same" if exp else "different"),
+                             {"ops": list(w.ops), "expect_eq": True}))
     if n1 == e1:
         fails.append(Failure("oracle", None, "[%s] != (%s) does not negate == (%s)" % (label, n1, e1), case))
     for x in (oa, ob):
@@ -250,7 +268,7 @@ def compare(ctx, w, a, b_, fails, label, g=None):
 def make_case(ctx, g):
     w = World()
     fails = []
-    b = DocBuilder(g, w, repeat_id=0.3, malformed=0.0, value_kinds=["str", "int", "float", "bool", "dt", "uri", "qn", "lit", "int", "bool"])
+    b = DocBuilder(g, w, repeat_id=0.3, malformed=0.0, refused=0.15, value_kinds=["str", "int", "float", "bool", "dt", "uri", "qn", "lit", "int", "bool"])
     d, scopes = b.random_document(n_records=g.rng.randint(1, 6))
     edit = g.choice(EDITS)
     members = None
